@@ -107,6 +107,8 @@ fn log_rule_update(map: &RuleMap) {
 
 /// different from
 pub fn append_rule(rule: Arc<Rule>) -> bool {
+    #[cfg(flea1lt_sentinel_rust_verif)]
+    crate::verif::sched::point("lk:flow.RULE_MAP:lock");
     if RULE_MAP
         .lock()
         .unwrap()
@@ -118,6 +120,8 @@ pub fn append_rule(rule: Arc<Rule>) -> bool {
     }
     match rule.is_valid() {
         Ok(_) => {
+            #[cfg(flea1lt_sentinel_rust_verif)]
+            crate::verif::sched::point("lk:flow.RULE_MAP:lock");
             RULE_MAP
                 .lock()
                 .unwrap()
@@ -136,7 +140,11 @@ pub fn append_rule(rule: Arc<Rule>) -> bool {
         }
     }
     let mut placeholder = Vec::new();
+    #[cfg(flea1lt_sentinel_rust_verif)]
+    crate::verif::sched::point("lk:flow.RULE_MAP:lock");
     let rule_map = RULE_MAP.lock().unwrap();
+    #[cfg(flea1lt_sentinel_rust_verif)]
+    crate::verif::sched::point("lk:flow.CONTROLLER_MAP:lock");
     let mut controller_map = CONTROLLER_MAP.lock().unwrap();
     // the helper moves every reused controller out of the old list into the new one,
     // so the new list is the complete set of controllers of the resource
@@ -179,6 +187,8 @@ pub fn load_rules(rules: Vec<Arc<Rule>>) -> bool {
         entry.insert(rule);
     }
 
+    #[cfg(flea1lt_sentinel_rust_verif)]
+    crate::verif::sched::point("lk:flow.RULE_MAP:lock");
     let mut global_rule_map = RULE_MAP.lock().unwrap();
     if *global_rule_map == rule_map {
         logging::info!(
@@ -209,6 +219,8 @@ pub fn load_rules(rules: Vec<Arc<Rule>>) -> bool {
     }
 
     let start = utils::curr_time_nanos();
+    #[cfg(flea1lt_sentinel_rust_verif)]
+    crate::verif::sched::point("lk:flow.CONTROLLER_MAP:lock");
     let mut controller_map = CONTROLLER_MAP.lock().unwrap();
     let mut valid_controller_map = HashMap::with_capacity(valid_rules_map.len());
 
@@ -245,7 +257,11 @@ pub fn load_rules_of_resource(res: &String, rules: Vec<Arc<Rule>>) -> Result<boo
         return Err(Error::msg("empty resource"));
     }
     let rules: HashSet<_> = rules.into_iter().collect();
+    #[cfg(flea1lt_sentinel_rust_verif)]
+    crate::verif::sched::point("lk:flow.RULE_MAP:lock");
     let mut global_rule_map = RULE_MAP.lock().unwrap();
+    #[cfg(flea1lt_sentinel_rust_verif)]
+    crate::verif::sched::point("lk:flow.CONTROLLER_MAP:lock");
     let mut global_controller_map = CONTROLLER_MAP.lock().unwrap();
     // clear resource rules
     if rules.is_empty() {
@@ -308,6 +324,8 @@ pub fn load_rules_of_resource(res: &String, rules: Vec<Arc<Rule>>) -> Result<boo
 // please release your lock on it before calling this func
 pub fn get_rules() -> Vec<Arc<Rule>> {
     let mut rules = Vec::new();
+    #[cfg(flea1lt_sentinel_rust_verif)]
+    crate::verif::sched::point("lk:flow.CONTROLLER_MAP:lock");
     let controller_map = CONTROLLER_MAP.lock().unwrap();
     for (_, controllers) in controller_map.iter() {
         for c in controllers {
@@ -321,6 +339,8 @@ pub fn get_rules() -> Vec<Arc<Rule>> {
 // This func acquires the lock on global `CONTROLLER_MAP`,
 // please release your locks on them before calling this func
 pub fn get_rules_of_resource(res: &String) -> Vec<Arc<Rule>> {
+    #[cfg(flea1lt_sentinel_rust_verif)]
+    crate::verif::sched::point("lk:flow.CONTROLLER_MAP:lock");
     let controller_map = CONTROLLER_MAP.lock().unwrap();
     let placeholder = Vec::new();
     let controllers = controller_map.get(res).unwrap_or(&placeholder);
@@ -335,7 +355,11 @@ pub fn get_rules_of_resource(res: &String) -> Vec<Arc<Rule>> {
 // This func acquires locks on global `RULE_MAP` and `CONTROLLER_MAP`,
 // please release your locks on them before calling this func
 pub fn clear_rules() {
+    #[cfg(flea1lt_sentinel_rust_verif)]
+    crate::verif::sched::point("lk:flow.RULE_MAP:lock");
     RULE_MAP.lock().unwrap().clear();
+    #[cfg(flea1lt_sentinel_rust_verif)]
+    crate::verif::sched::point("lk:flow.CONTROLLER_MAP:lock");
     CONTROLLER_MAP.lock().unwrap().clear();
 }
 
@@ -343,13 +367,19 @@ pub fn clear_rules() {
 // This func acquires locks on global `RULE_MAP` and `CONTROLLER_MAP`,
 // please release your locks on them before calling this func
 pub fn clear_rules_of_resource(res: &String) {
+    #[cfg(flea1lt_sentinel_rust_verif)]
+    crate::verif::sched::point("lk:flow.RULE_MAP:lock");
     RULE_MAP.lock().unwrap().remove(res);
+    #[cfg(flea1lt_sentinel_rust_verif)]
+    crate::verif::sched::point("lk:flow.CONTROLLER_MAP:lock");
     CONTROLLER_MAP.lock().unwrap().remove(res);
 }
 
 // This func acquires the lock on global `CONTROLLER_MAP`,
 // please release your lock on it before calling this func
 pub fn get_traffic_controller_list_for(name: &String) -> Vec<Arc<Controller>> {
+    #[cfg(flea1lt_sentinel_rust_verif)]
+    crate::verif::sched::point("lk:flow.CONTROLLER_MAP:lock");
     let controller_map = CONTROLLER_MAP.lock().unwrap();
     let controllers = controller_map.get(name);
     match controllers {
@@ -433,6 +463,8 @@ pub fn set_traffic_shaping_generator(
 ) -> Result<()> {
     match (calculate_strategy, control_strategy) {
         (CalculateStrategy::Custom(_), _) | (_, ControlStrategy::Custom(_)) => {
+            #[cfg(flea1lt_sentinel_rust_verif)]
+            crate::verif::sched::point("lk:flow.GEN_FUN_MAP:write");
             GEN_FUN_MAP.write().unwrap().insert(
                 ControllerGenKey::new(calculate_strategy, control_strategy),
                 generator,
@@ -453,6 +485,8 @@ pub fn remove_traffic_shaping_generator(
 ) -> Result<()> {
     match (calculate_strategy, control_strategy) {
         (CalculateStrategy::Custom(_), _) | (_, ControlStrategy::Custom(_)) => {
+            #[cfg(flea1lt_sentinel_rust_verif)]
+            crate::verif::sched::point("lk:flow.GEN_FUN_MAP:write");
             GEN_FUN_MAP
                 .write()
                 .unwrap()
@@ -510,6 +544,8 @@ pub fn build_resource_traffic_shaping_controller(
             continue;
         }
 
+        #[cfg(flea1lt_sentinel_rust_verif)]
+        crate::verif::sched::point("lk:flow.GEN_FUN_MAP:read");
         let gen_fun_map = GEN_FUN_MAP.read().unwrap();
         let key = ControllerGenKey::new(rule.calculate_strategy, rule.control_strategy);
         let generator = gen_fun_map.get(&key);
@@ -543,6 +579,16 @@ pub fn build_resource_traffic_shaping_controller(
         new_res_tcs.push(tc);
     }
     new_res_tcs
+}
+
+/// which of this module's locks are held right now (by anybody, the caller included)
+#[cfg(flea1lt_sentinel_rust_verif)]
+pub fn verif_locks_held() -> Vec<(&'static str, bool)> {
+    vec![
+        ("flow.GEN_FUN_MAP", GEN_FUN_MAP.try_write().is_err()),
+        ("flow.CONTROLLER_MAP", CONTROLLER_MAP.try_lock().is_err()),
+        ("flow.RULE_MAP", RULE_MAP.try_lock().is_err()),
+    ]
 }
 
 #[cfg(test)]
